@@ -229,6 +229,53 @@ type universe struct {
 	nicks, crnicks []string
 	hashes         []common.Uint256
 	fundIns        []*common2.Input
+	sw             *sweepCtl
+}
+
+// sweepCtl makes build() deterministic: the i-th draw of a resource class
+// returns resource i (tx A), or resource i+shift unless it is the shared draw
+// (tx B); variant choices are the digits of a mixed-radix number.
+type sweepCtl struct {
+	isB     bool
+	share   string // "class:position" of the one draw B shares with A
+	count   map[string]int
+	draws   []string
+	variant int
+	radices []int
+	insOff  int
+}
+
+func (u *universe) draw(class string, n int) int {
+	if u.sw == nil {
+		return u.rng.Intn(n)
+	}
+	pos := u.sw.count[class]
+	u.sw.count[class]++
+	id := fmt.Sprintf("%s:%d", class, pos)
+	u.sw.draws = append(u.sw.draws, id)
+	idx := pos
+	if u.sw.isB && id != u.sw.share {
+		idx = pos + (n+1)/2
+	}
+	return idx % n
+}
+
+func (u *universe) choice(n int) int {
+	if u.sw == nil {
+		return u.rng.Intn(n)
+	}
+	u.sw.radices = append(u.sw.radices, n)
+	c := u.sw.variant % n
+	u.sw.variant /= n
+	return c
+}
+
+func stakeHash(code []byte) common.Uint168 {
+	ct, err := contract.CreateStakeContractByCode(code)
+	if err != nil {
+		panic(err)
+	}
+	return *ct.ToProgramHash()
 }
 
 func (u *universe) keyID(s string) int {
@@ -320,6 +367,10 @@ const (
 	sReturnDeposit     = "SidechainReturnDepositTxHashes"
 	sNFTDestroy        = "NFTDestroyFromSideChainHash"
 	sInputs            = "TxInputsReferKeys"
+	sExchangeVotes     = "ExchangeVotes"
+	sClaimReward       = "DposV2ClaimReward"
+	sCreateNFT         = "createnft"
+	sCreateNFTAddr     = "createnftstakeaddr"
 )
 
 // build creates one transaction of a random kind; every resource it claims is
@@ -333,18 +384,31 @@ func (u *universe) build(kind int) *gtx {
 	ver := common2.TransactionVersion(0)
 	var outs []*common2.Output
 	nin := 1 + rng.Intn(2)
-	k := func() *keyPair { return e.keys[rng.Intn(len(e.keys))] }
-	hsh := func() common.Uint256 { return u.hashes[rng.Intn(len(u.hashes))] }
+	k := func() *keyPair { return e.keys[u.draw("k", len(e.keys))] }
+	hsh := func() common.Uint256 { return u.hashes[u.draw("h", len(u.hashes))] }
+	choice := u.choice
+	chance := func(pct int) bool {
+		if u.sw != nil {
+			return u.choice(2) == 1
+		}
+		return rng.Chance(pct)
+	}
+	cnt := func(n int) int { // how many resources of one class the tx claims
+		if u.sw != nil {
+			return 2
+		}
+		return 1 + rng.Intn(n)
+	}
 	progs := []*program.Program{{Code: e.keys[0].code, Parameter: []byte{0x40}}}
 	switch kind {
 	case 0, 1, 2: // TransferAsset, possibly voting
 		ty, pl = common2.TransferAsset, &payload.TransferAsset{}
 		outs = append(outs, &common2.Output{AssetID: common.Uint256{1}, Value: 10, ProgramHash: common.Uint168{9}, Type: common2.OTNone, Payload: &outputpayload.DefaultOutput{}})
-		if rng.Chance(40) {
+		if chance(40) {
 			ver = common2.TxVersion09
 			vk, cand := outputpayload.Delegate, k().pub
 			tag := "0"
-			if rng.Bool() {
+			if choice(2) == 1 {
 				kk := k()
 				vk, cand, tag = outputpayload.CRC, kk.cid.Bytes(), "1"
 			}
@@ -360,7 +424,7 @@ func (u *universe) build(kind int) *gtx {
 			ty = common2.UpdateProducer
 		}
 		o, n := k(), k()
-		nick := u.nicks[rng.Intn(len(u.nicks))]
+		nick := u.nicks[u.draw("n", len(u.nicks))]
 		pl = &payload.ProducerInfo{OwnerKey: o.pub, NodePublicKey: n.pub, NickName: nick, Url: "u", Location: 1, NetAddress: "a"}
 		g.claims = append(g.claims, claim{sOwner, o.hex}, claim{sNode, n.hex}, claim{sOwnerNode, o.hex}, claim{sNick, nick})
 		if n.hex != o.hex {
@@ -392,9 +456,22 @@ func (u *universe) build(kind int) *gtx {
 		g.what = "ActivateProducer"
 	case 7, 8: // RegisterCR / UpdateCR
 		c := k()
-		nick := u.crnicks[rng.Intn(len(u.crnicks))]
+		nick := u.crnicks[u.draw("c", len(u.crnicks))]
 		cidOwner := k()
-		pl = &payload.CRInfo{Code: c.code, CID: cidOwner.cid, NickName: nick, Url: "u", Location: 1}
+		info := &payload.CRInfo{Code: c.code, CID: cidOwner.cid, NickName: nick, Url: "u", Location: 1}
+		pl = info
+		switch choice(3) { // payload versions
+		case 1:
+			pv = payload.CRInfoDIDVersion
+			info.DID = common.Uint168{0x67, 1, 2}
+		case 2:
+			if kind == 7 { // schnorr: the key comes from the program code, payload code empty
+				pv = payload.CRInfoSchnorrVersion
+				info.Code = []byte{}
+				info.DID = common.Uint168{0x67, 1, 2}
+				progs = []*program.Program{{Code: append([]byte{0x51, 0x21}, c.pub...), Parameter: []byte{0x40}}}
+			}
+		}
 		if kind == 7 {
 			ty = common2.RegisterCR
 			g.claims = append(g.claims, claim{sOwner, c.hex}, claim{sNode, c.hex})
@@ -417,7 +494,31 @@ func (u *universe) build(kind int) *gtx {
 		p := &payload.CRCProposal{ProposalType: payload.Normal, OwnerKey: k().pub, DraftHash: d, CRCouncilMemberDID: did,
 			Recipient: common.Uint168{7}}
 		g.claims = append(g.claims, claim{sDraft, hx(d[:])}, claim{sPropDID, hx(did[:])})
-		switch rng.Intn(6) {
+		switch choice(10) {
+		case 6:
+			p.ProposalType = payload.ReserveCustomID
+			p.ReservedCustomIDList = []string{"resid"}
+			g.claims = append(g.claims, claim{sReserve, "Reserve custom ID"})
+		case 7:
+			p.ProposalType = payload.ChangeCustomIDFee
+			g.claims = append(g.claims, claim{sChangeFee, "Change the fee of custom ID"})
+		case 8:
+			p.ProposalType = payload.ReceiveCustomID
+			for i, n := 0, cnt(2); i < n; i++ {
+				id := "custom-" + u.nicks[u.draw("n", len(u.nicks))]
+				p.ReceivedCustomIDList = append(p.ReceivedCustomIDList, id)
+				g.claims = append(g.claims, claim{sCustomID, id})
+			}
+			p.ReceiverDID = common.Uint168{0x67, 3}
+		case 9:
+			p.ProposalType = payload.RegisterSideChain
+			p.SideChainName = "chain-" + u.nicks[u.draw("n", len(u.nicks))]
+			p.MagicNumber = uint32(1000 + u.draw("m", 8))
+			p.GenesisHash = hsh()
+			p.ExchangeRate = 100000000
+			p.EffectiveHeight = 1000
+			p.ResourcePath = "r"
+			g.claims = append(g.claims, claim{sSCName, p.SideChainName}, claim{sSCMagic, fmt.Sprint(p.MagicNumber)}, claim{sSCGenesis, hx(p.GenesisHash[:])})
 		case 0:
 			p.ProposalType = payload.CloseProposal
 			p.TargetProposalHash = hsh()
@@ -460,7 +561,7 @@ func (u *universe) build(kind int) *gtx {
 		g.claims = append(g.claims, claim{sReview, did.String() + h.String()})
 		g.what = "CRCProposalReview"
 	case 15: // CRCAppropriation / CRAssetsRectify
-		if rng.Bool() {
+		if choice(2) == 1 {
 			ty, pl = common2.CRCAppropriation, &payload.CRCAppropriation{}
 			g.claims = append(g.claims, claim{sApprop, "CRC Appropriation"})
 		} else {
@@ -469,11 +570,21 @@ func (u *universe) build(kind int) *gtx {
 		g.what = "CRCAppropriation/Rectify"
 	case 16: // WithdrawFromSideChain
 		ty = common2.WithdrawFromSideChain
-		n := 1 + rng.Intn(3)
+		n := cnt(3)
 		p := &payload.WithdrawFromSideChain{BlockHeight: 10, GenesisBlockAddress: "g"}
+		pv = byte(choice(3)) // V0: hashes in the payload; V1, V2 (schnorr): in the withdraw outputs
+		if pv != payload.WithdrawFromSideChainVersion {
+			ver = common2.TxVersion09
+			p = &payload.WithdrawFromSideChain{Signers: []uint8{0, 1}}
+		}
 		for i := 0; i < n; i++ {
 			h := hsh()
-			p.SideChainTransactionHashes = append(p.SideChainTransactionHashes, h)
+			if pv == payload.WithdrawFromSideChainVersion {
+				p.SideChainTransactionHashes = append(p.SideChainTransactionHashes, h)
+			} else {
+				outs = append(outs, &common2.Output{AssetID: common.Uint256{1}, Value: 3, ProgramHash: common.Uint168{5}, Type: common2.OTWithdrawFromSideChain,
+					Payload: &outputpayload.Withdraw{GenesisBlockAddress: "g", SideChainTransactionHash: h, TargetData: []byte{1}}})
+			}
 			g.claims = append(g.claims, claim{sSidechain, hx(h[:])})
 		}
 		pl = p
@@ -481,7 +592,7 @@ func (u *universe) build(kind int) *gtx {
 	case 17: // ReturnSideChainDepositCoin
 		ty, pl = common2.ReturnSideChainDepositCoin, &payload.ReturnSideChainDepositCoin{}
 		ver = common2.TxVersion09
-		n := 1 + rng.Intn(2)
+		n := cnt(2)
 		for i := 0; i < n; i++ {
 			h := hsh()
 			outs = append(outs, &common2.Output{AssetID: common.Uint256{1}, Value: 3, ProgramHash: common.Uint168{6}, Type: common2.OTReturnSideChainDepositCoin,
@@ -489,20 +600,52 @@ func (u *universe) build(kind int) *gtx {
 			g.claims = append(g.claims, claim{sReturnDeposit, hx(h[:])})
 		}
 		g.what = "ReturnSideChainDepositCoin"
-	case 18: // special: InactiveArbitrators / NextTurnDPOSInfo
+	case 18: // special transactions (SpecialTxHash = hash of the evidence payload)
 		nin = 0
 		progs = []*program.Program{}
-		if rng.Bool() {
+		height := uint32(u.draw("m", 8))
+		prop := func(view uint32) payload.ProposalEvidence {
+			return payload.ProposalEvidence{Proposal: payload.DPOSProposal{Sponsor: k().pub, BlockHash: hsh(), ViewOffset: view, Sign: []byte{1}},
+				BlockHeader: []byte{1, 2, 3}, BlockHeight: height}
+		}
+		var ill payload.DPOSIllegalData
+		switch choice(6) {
+		case 0:
 			ty = common2.InactiveArbitrators
-			p := &payload.InactiveArbitrators{Sponsor: k().pub, Arbitrators: [][]byte{k().pub}, BlockHeight: uint32(rng.Intn(3))}
+			p := &payload.InactiveArbitrators{Sponsor: k().pub, Arbitrators: [][]byte{k().pub}, BlockHeight: height}
+			pl, ill = p, p
+		case 1:
+			ty = common2.NextTurnDPOSInfo
+			p := &payload.NextTurnDPOSInfo{WorkingHeight: height, CRPublicKeys: [][]byte{k().pub}, DPOSPublicKeys: [][]byte{k().pub}}
 			pl = p
 			h := p.Hash()
 			g.claims = append(g.claims, claim{sSpecial, hx(h[:])})
-		} else {
-			ty = common2.NextTurnDPOSInfo
-			p := &payload.NextTurnDPOSInfo{WorkingHeight: uint32(rng.Intn(3)), CRPublicKeys: [][]byte{k().pub}, DPOSPublicKeys: [][]byte{k().pub}}
-			pl = p
-			h := p.Hash()
+		case 2:
+			ty = common2.IllegalProposalEvidence
+			p := &payload.DPOSIllegalProposals{Evidence: prop(0), CompareEvidence: prop(1)}
+			pl, ill = p, p
+		case 3:
+			ty = common2.IllegalVoteEvidence
+			v := func(view uint32) payload.VoteEvidence {
+				return payload.VoteEvidence{ProposalEvidence: prop(view), Vote: payload.DPOSProposalVote{ProposalHash: hsh(), Signer: k().pub, Accept: true, Sign: []byte{2}}}
+			}
+			p := &payload.DPOSIllegalVotes{Evidence: v(0), CompareEvidence: v(1)}
+			pl, ill = p, p
+		case 4:
+			ty = common2.IllegalBlockEvidence
+			p := &payload.DPOSIllegalBlocks{CoinType: payload.ELACoin, BlockHeight: height,
+				Evidence:        payload.BlockEvidence{Header: k().pub, BlockConfirm: []byte{1}, Signers: [][]byte{k().pub}},
+				CompareEvidence: payload.BlockEvidence{Header: k().pub, BlockConfirm: []byte{2}, Signers: [][]byte{k().pub}}}
+			pl, ill = p, p
+		default:
+			ty = common2.IllegalSidechainEvidence
+			p := &payload.SidechainIllegalData{IllegalType: payload.SidechainIllegalProposal, Height: height, IllegalSigner: k().pub,
+				Evidence: payload.SidechainIllegalEvidence{DataHash: hsh()}, CompareEvidence: payload.SidechainIllegalEvidence{DataHash: hsh()},
+				GenesisBlockAddress: "g", Signs: [][]byte{{1}}}
+			pl, ill = p, p
+		}
+		if ill != nil {
+			h := ill.Hash()
 			g.claims = append(g.claims, claim{sSpecial, hx(h[:])})
 		}
 		g.what = "special"
@@ -521,13 +664,13 @@ func (u *universe) build(kind int) *gtx {
 		}
 		p.Signature = sig
 		pl = p
-		if rng.Chance(50) {
+		if chance(50) {
 			nin = 0
 		}
 		g.what = "SideChainPow"
 	case 20: // ReturnDepositCoin / ReturnCRDepositCoin
 		c := k()
-		if rng.Bool() {
+		if choice(2) == 1 {
 			ty, pl = common2.ReturnDepositCoin, &payload.ReturnDepositCoin{}
 		} else {
 			ty, pl = common2.ReturnCRDepositCoin, &payload.ReturnDepositCoin{}
@@ -542,7 +685,7 @@ func (u *universe) build(kind int) *gtx {
 		g.claims = append(g.claims, claim{sNode, n.hex}, claim{sClaimNode, n.hex}, claim{sClaimDID, hx(did[:])})
 		g.what = "CRCouncilMemberClaimNode"
 	case 22: // single-instance kinds
-		switch rng.Intn(3) {
+		switch choice(3) {
 		case 0:
 			ty, pl = common2.RevertToDPOS, &payload.RevertToDPOS{WorkHeightInterval: 10}
 			g.claims = append(g.claims, claim{sRevert, "RevertToDPOS"})
@@ -557,13 +700,13 @@ func (u *universe) build(kind int) *gtx {
 		}
 		g.what = "singleton"
 	case 23: // hash-array withdraw kinds
-		n := 1 + rng.Intn(2)
+		n := cnt(2)
 		var hs []common.Uint256
 		for i := 0; i < n; i++ {
 			hs = append(hs, hsh())
 		}
 		slot := sRealWithdraw
-		switch rng.Intn(3) {
+		switch choice(3) {
 		case 0:
 			ty, pl = common2.CRCProposalRealWithdraw, &payload.CRCProposalRealWithdraw{WithdrawTransactionHashes: hs}
 		case 1:
@@ -576,7 +719,7 @@ func (u *universe) build(kind int) *gtx {
 		}
 		g.what = "hash-array"
 	case 24: // rejected outright
-		if rng.Bool() {
+		if choice(2) == 1 {
 			ty, pl = common2.CoinBase, &payload.CoinBase{Content: []byte("c")}
 		} else {
 			ty, pl = common2.RecordSponsor, &payload.RecordSponsor{}
@@ -587,9 +730,54 @@ func (u *universe) build(kind int) *gtx {
 		ty, pl = common2.UpdateVersion, &payload.UpdateVersion{StartHeight: uint32(rng.Intn(5)), EndHeight: 10}
 		nin, progs = 0, []*program.Program{}
 		g.what = "UpdateVersion"
+	case 26: // stake address kinds: ExchangeVotes / Voting / ReturnVotes / DposV2ClaimReward
+		c := k()
+		stake := stakeHash(c.code)
+		progs = []*program.Program{{Code: c.code, Parameter: []byte{0x40}}}
+		switch choice(6) {
+		case 0:
+			ty, pl = common2.ExchangeVotes, &payload.ExchangeVotes{}
+			outs = append(outs, &common2.Output{AssetID: common.Uint256{1}, Value: 7, ProgramHash: stake, Type: common2.OTStake,
+				Payload: &outputpayload.ExchangeVotesOutput{Version: 0, StakeAddress: stake}})
+			progs = []*program.Program{{Code: e.keys[0].code, Parameter: []byte{0x40}}}
+			g.claims = append(g.claims, claim{sExchangeVotes, hx(stake[:])})
+		case 1:
+			ty, pl = common2.Voting, &payload.Voting{}
+			g.claims = append(g.claims, claim{sExchangeVotes, hx(stake[:])})
+		case 2:
+			ty, pl, pv = common2.ReturnVotes, &payload.ReturnVotes{ToAddr: common.Uint168{0x21, 1}, Code: c.code, Value: 5}, payload.ReturnVotesVersionV0
+			progs = []*program.Program{{Code: e.keys[0].code, Parameter: []byte{0x40}}}
+			g.claims = append(g.claims, claim{sExchangeVotes, hx(stake[:])})
+		case 3:
+			ty, pl, pv = common2.ReturnVotes, &payload.ReturnVotes{ToAddr: common.Uint168{0x21, 1}, Value: 5}, payload.ReturnVotesSchnorrVersion
+			g.claims = append(g.claims, claim{sExchangeVotes, hx(stake[:])})
+		case 4:
+			ty, pl, pv = common2.DposV2ClaimReward, &payload.DPoSV2ClaimReward{ToAddr: common.Uint168{0x21, 1}, Code: c.code, Value: 5}, payload.DposV2ClaimRewardVersionV0
+			progs = []*program.Program{{Code: e.keys[0].code, Parameter: []byte{0x40}}}
+			g.claims = append(g.claims, claim{sClaimReward, hx(stake[:])})
+		default:
+			ty, pl, pv = common2.DposV2ClaimReward, &payload.DPoSV2ClaimReward{ToAddr: common.Uint168{0x21, 1}, Value: 5}, payload.DposV2ClaimRewardVersionV1
+			g.claims = append(g.claims, claim{sClaimReward, hx(stake[:])})
+		}
+		g.what = "stake-address"
+	case 27: // CreateNFT
+		c := k()
+		stake := stakeHash(c.code)
+		progs = []*program.Program{{Code: c.code, Parameter: []byte{0x40}}}
+		ref := hsh()
+		addr := "S" + u.nicks[u.draw("n", len(u.nicks))]
+		ty, pl = common2.CreateNFT, &payload.CreateNFT{ReferKey: ref, StakeAddress: addr, GenesisBlockHash: common.Uint256{3}}
+		pv = byte(choice(2))
+		g.claims = append(g.claims, claim{sExchangeVotes, hx(stake[:])}, claim{sCreateNFT, hx(ref[:])}, claim{sCreateNFTAddr, addr})
+		g.what = "CreateNFT"
 	}
 	var ins []*common2.Input
-	if nin > 0 {
+	if nin > 0 && u.sw != nil {
+		for i := 0; i < nin; i++ {
+			c := *u.fundIns[(u.sw.insOff+i)%len(u.fundIns)]
+			ins = append(ins, &c)
+		}
+	} else if nin > 0 {
 		ins, g.refok = u.pickIns(nin)
 	} else {
 		ins = []*common2.Input{}
@@ -919,7 +1107,7 @@ func snapKey(op string, res int, s *mempool.PoolSnapshotVerif, u *universe) stri
 	return sb.String()
 }
 
-var allKinds = []int{0, 1, 2, 3, 3, 4, 4, 5, 6, 7, 7, 8, 9, 10, 11, 12, 13, 14, 15, 16, 16, 17, 18, 19, 19, 20, 21, 22, 23, 24, 25}
+var allKinds = []int{0, 1, 2, 3, 3, 4, 4, 5, 6, 7, 7, 8, 9, 10, 11, 12, 13, 14, 15, 16, 16, 17, 18, 19, 19, 20, 21, 22, 23, 24, 25, 26, 26, 27}
 
 func runStub(e *env, rng *lib.Rng, tbl *slotTable, st *lib.Stats, sh *lib.Shards, run *lib.Run, id int, hook bool) {
 	n := 14 + rng.Intn(26)
@@ -930,7 +1118,7 @@ func runStub(e *env, rng *lib.Rng, tbl *slotTable, st *lib.Stats, sh *lib.Shards
 	case 1:
 		kinds = []int{10, 11, 12, 13, 14, 15, 0, 15} // proposals and budget
 	case 2:
-		kinds = []int{0, 1, 2, 19, 16, 17, 18, 25} // outpoints, side chain, special
+		kinds = []int{0, 1, 2, 19, 16, 17, 18, 25, 26, 27} // outpoints, side chain, special, stake
 	}
 	u := newUniverse(e, rng, n, kinds)
 	ckp := checkpoint.NewManager(e.params)
@@ -1131,17 +1319,19 @@ func errOf(e elaerr.ELAError) error {
 }
 
 // spec table of the property (mirrors model/C34_Spec.v): resource, slot, tx type names
+// spec table of the property (mirrors model/C34_Spec.v): resource, slot,
+// "TxType/payloadVersion" (version 0 when omitted)
 var required = []struct {
 	Res, Slot string
 	Types     []string
 }{
 	{"outpoint", sInputs, nil},
-	{"producer owner key", sOwner, []string{"RegisterProducer", "UpdateProducer", "CancelProducer", "RegisterCR"}},
-	{"producer node key", sNode, []string{"RegisterProducer", "UpdateProducer", "ActivateProducer", "RegisterCR", "CRCouncilMemberClaimNode"}},
+	{"producer owner key", sOwner, []string{"RegisterProducer", "UpdateProducer", "CancelProducer", "RegisterCR/0", "RegisterCR/1", "RegisterCR/2"}},
+	{"producer node key", sNode, []string{"RegisterProducer", "UpdateProducer", "ActivateProducer", "RegisterCR/0", "RegisterCR/1", "RegisterCR/2", "CRCouncilMemberClaimNode"}},
 	{"producer owner/node key cross use", sOwnerNode, []string{"RegisterProducer", "UpdateProducer"}},
 	{"producer nickname", sNick, []string{"RegisterProducer", "UpdateProducer"}},
-	{"CR CID", sCRDID, []string{"RegisterCR", "UpdateCR", "UnregisterCR"}},
-	{"CR nickname", sCRNick, []string{"RegisterCR", "UpdateCR"}},
+	{"CR CID", sCRDID, []string{"RegisterCR/0", "RegisterCR/1", "RegisterCR/2", "UpdateCR/0", "UpdateCR/1", "UnregisterCR"}},
+	{"CR nickname", sCRNick, []string{"RegisterCR/0", "RegisterCR/1", "RegisterCR/2", "UpdateCR/0", "UpdateCR/1"}},
 	{"deposit program code", sCode, []string{"ReturnDepositCoin", "ReturnCRDepositCoin"}},
 	{"proposal draft hash", sDraft, []string{"CRCProposal"}},
 	{"proposal hash (withdraw)", sPropHash, []string{"CRCProposalWithdraw"}},
@@ -1150,9 +1340,12 @@ var required = []struct {
 	{"CRC appropriation", sApprop, []string{"CRCAppropriation"}},
 	{"council member claimed node key", sClaimNode, []string{"CRCouncilMemberClaimNode"}},
 	{"council member DID", sClaimDID, []string{"CRCouncilMemberClaimNode"}},
-	{"side-chain tx hash", sSidechain, []string{"WithdrawFromSideChain"}},
+	{"side-chain tx hash", sSidechain, []string{"WithdrawFromSideChain/0", "WithdrawFromSideChain/1", "WithdrawFromSideChain/2"}},
 	{"side-chain return-deposit tx hash", sReturnDeposit, []string{"ReturnSideChainDepositCoin"}},
 	{"special tx hash", sSpecial, []string{"IllegalProposalEvidence", "IllegalVoteEvidence", "IllegalBlockEvidence", "IllegalSidechainEvidence", "InactiveArbitrators", "NextTurnDPOSInfo"}},
+	{"stake address", sExchangeVotes, []string{"ExchangeVotes", "Voting", "ReturnVotes/0", "ReturnVotes/1", "CreateNFT/0", "CreateNFT/1"}},
+	{"DPoS v2 reward claim", sClaimReward, []string{"DposV2ClaimReward/0", "DposV2ClaimReward/1"}},
+	{"NFT id", sCreateNFT, []string{"CreateNFT/0", "CreateNFT/1"}},
 }
 
 func checkCoverage(tbl *slotTable, st *lib.Stats) {
@@ -1169,6 +1362,9 @@ func checkCoverage(tbl *slotTable, st *lib.Stats) {
 			}
 		} else {
 			for _, t := range r.Types {
+				if j := strings.IndexByte(t, '/'); j >= 0 {
+					t = t[:j]
+				}
 				if v := tbl.TypeVal(t); v < 0 || !tbl.Applies(i, v) {
 					missing = append(missing, t)
 				}
@@ -1217,6 +1413,7 @@ func main() {
 		id++
 		runStub(e, rng.Fork(), tbl, st, sh, run, id, true)
 	}
+	runSweep(e, rng.Fork(), tbl, st, sh, run, &id)
 	if os.Getenv("C34_NO_REAL") == "" {
 		runReal(rng.Fork(), tbl, st, sh, run, &id)
 	}
